@@ -178,6 +178,9 @@ func c20Airtime(c *core.Ctx, sf, bw, cr, pre int, header, ldro bool) {
 			c.Violate("C20|airtime|error", "%v", err)
 			return
 		}
+		if at2, e2 := airtime.CalculateLoRaAirtime(pl, sf, bw, pre, airtime.CodingRate(cr), header, ldro); e2 != nil || at2 != at {
+			c.Violate("C20|airtime|second-identical-call-differs", "PL=%d SF%d BW%d: %v then %v (%v)", pl, sf, bw, at, at2, e2)
+		}
 		exact := new(big.Rat).Add(preExact, new(big.Rat).Mul(big.NewRat(n, 1), symExact))
 		d := new(big.Rat).Sub(exact, big.NewRat(int64(at), 1))
 		if d.Sign() < 0 || d.Cmp(big.NewRat(int64(pre)+6+n, 1)) > 0 {
